@@ -4,6 +4,7 @@ package main
 
 import (
 	"fmt"
+	"go/ast"
 	"go/token"
 	"go/types"
 	"sort"
@@ -493,6 +494,106 @@ func runC13AllForeign(c *Ctx) {
 	}
 	// every key other than the ones GitHub allows in a call job is remembered for the first report
 	allowed := map[string]bool{"name": true, "uses": true, "with": true, "secrets": true, "needs": true, "if": true, "permissions": true, "strategy": true, "concurrency": true}
+	// the list the first report ranges over
+	var list ssa.Value
+	for blk := range stepsOnlyLoop {
+		for _, in := range blk.Instrs {
+			if ia, ok := in.(*ssa.IndexAddr); ok && typeStr(ia.X.Type()) == "[]*String" {
+				list = ia.X
+			}
+		}
+	}
+	if list == nil {
+		c.anchorMissing("the list of keys the report about keys not available in a call job ranges over")
+		return
+	}
+	feedsList := func(v ssa.Value) bool {
+		seen := map[ssa.Value]bool{}
+		work := []ssa.Value{v}
+		for len(work) > 0 {
+			x := work[len(work)-1]
+			work = work[:len(work)-1]
+			if x == list {
+				return true
+			}
+			if seen[x] || x.Referrers() == nil {
+				continue
+			}
+			seen[x] = true
+			for _, r := range *x.Referrers() {
+				switch r := r.(type) {
+				case *ssa.Phi:
+					work = append(work, r)
+				case *ssa.Call:
+					if bi, ok := r.Call.Value.(*ssa.Builtin); ok && bi.Name() == "append" && len(r.Call.Args) > 0 && r.Call.Args[0] == x {
+						work = append(work, r)
+					}
+				}
+			}
+		}
+		return false
+	}
+	remembers := func(blks map[*ssa.BasicBlock]bool) bool {
+		for blk := range blks {
+			for _, in := range blk.Instrs {
+				if call, ok := in.(*ssa.Call); ok {
+					if bi, ok := call.Call.Value.(*ssa.Builtin); ok && bi.Name() == "append" && feedsList(call) {
+						return true
+					}
+				}
+			}
+		}
+		return false
+	}
+	isKeyID := func(v ssa.Value) bool {
+		if f, _ := fieldLoad(v); f == "workflowKeyVal.id" {
+			return true
+		}
+		_, isField := v.(*ssa.Field)
+		return isField
+	}
+	innermost := func(b *ssa.BasicBlock) (*ssa.BasicBlock, map[*ssa.BasicBlock]bool) {
+		var hd *ssa.BasicBlock
+		var body map[*ssa.BasicBlock]bool
+		for _, h := range loopHeaders(fn) {
+			if l := naturalLoop(h); l[b] && (body == nil || len(l) < len(body)) {
+				hd, body = h, l
+			}
+		}
+		return hd, body
+	}
+	// keys remembered through a table consulted with the key: `if _, ok := table[kv.id]; ok { list = append(list, k) }`
+	tabled := map[string]bool{}
+	for _, b := range fn.Blocks {
+		for _, in := range b.Instrs {
+			lk, ok := in.(*ssa.Lookup)
+			if !ok || !isKeyID(lk.Index) {
+				continue
+			}
+			ld, ok := lk.X.(*ssa.UnOp)
+			if !ok || ld.Op != token.MUL {
+				continue
+			}
+			g, ok := ld.X.(*ssa.Global)
+			if !ok {
+				continue
+			}
+			ifi, ok := b.Instrs[len(b.Instrs)-1].(*ssa.If)
+			if !ok {
+				continue
+			}
+			hd, _ := innermost(b)
+			if hd == nil {
+				continue
+			}
+			if !remembers(reachableBlocks([]*ssa.BasicBlock{ifi.Block().Succs[0]}, map[*ssa.BasicBlock]bool{ifi.Block().Succs[1]: true, hd: true})) {
+				continue
+			}
+			for _, k := range constMapKeys(p, g) {
+				tabled[k] = true
+			}
+		}
+	}
 	var missing []string
 	keys := 0
 	for _, b := range fn.Blocks {
@@ -505,43 +606,24 @@ func runC13AllForeign(c *Ctx) {
 			continue
 		}
 		k, ok := constString(bo.Y)
-		if !ok {
+		if !ok || !isKeyID(bo.X) {
 			continue
-		}
-		if f, _ := fieldLoad(bo.X); f != "workflowKeyVal.id" {
-			if _, isField := bo.X.(*ssa.Field); !isField {
-				continue
-			}
 		}
 		keys++
-		if allowed[k] {
+		if allowed[k] || tabled[k] {
 			continue
 		}
-		// the case body (up to the next key comparison or the loop latch) appends a key to a []*String
-		appends := false
+		// the case body (up to the next key comparison or the next iteration of the key loop) appends the key to that list
+		hd, _ := innermost(b)
 		stop := map[*ssa.BasicBlock]bool{b.Succs[1]: true}
-		for blk := range reachableBlocks([]*ssa.BasicBlock{b.Succs[0]}, stop) {
-			if len(blk.Instrs) > 0 {
-				if i2, ok := blk.Instrs[len(blk.Instrs)-1].(*ssa.If); ok {
-					if b2, ok := i2.Cond.(*ssa.BinOp); ok && b2.Op == token.EQL {
-						if _, isKey := constString(b2.Y); isKey {
-							continue
-						}
-					}
-				}
-			}
-			for _, in := range blk.Instrs {
-				if call, ok := in.(*ssa.Call); ok {
-					if bi, ok := call.Call.Value.(*ssa.Builtin); ok && bi.Name() == "append" && typeStr(call.Type()) == "[]*String" {
-						appends = true
-					}
-				}
-			}
+		if hd != nil {
+			stop[hd] = true
 		}
-		if !appends {
+		if !remembers(reachableBlocks([]*ssa.BasicBlock{b.Succs[0]}, stop)) {
 			missing = append(missing, k)
 		}
 	}
+	sort.Strings(missing)
 	_ = stepsOnlyLoop
 	construct := "(*parser).parseJob|keys remembered as not available in a call job"
 	switch {
@@ -1822,6 +1904,37 @@ func runC08JSONKeys(c *Ctx) {
 	default:
 		c.ok(construct, fn.Pos(), "a collision of different types gives any, whatever the spellings")
 	}
+	if n == 0 {
+		return
+	}
+	// the test that decides what a collision gives treats both spellings alike: it is not the one-directional relation
+	// Assignable (string accepts number but not the reverse, so the spelling that sorts first would decide the type)
+	construct = "typeOfJSONValue|test applied to keys that collide after lower-casing"
+	var asym *ssa.Call
+	eachInstr(fn, func(b *ssa.BasicBlock, _ int, in ssa.Instruction) {
+		call, ok := in.(*ssa.Call)
+		if !ok || !call.Call.IsInvoke() || call.Call.Method.Name() != "Assignable" {
+			return
+		}
+		underCollision := false
+		for ifi, outcome := range controllingConds(b) {
+			if ex, ok := ifi.Cond.(*ssa.Extract); ok && ex.Index == 1 && outcome {
+				if lk, ok := ex.Tuple.(*ssa.Lookup); ok && lk.CommaOk {
+					if _, isMake := lk.X.(*ssa.MakeMap); isMake {
+						underCollision = true
+					}
+				}
+			}
+		}
+		if underCollision && asym == nil {
+			asym = call
+		}
+	})
+	if asym != nil {
+		c.bad(construct, asym.Pos(), "colliding keys are compared with Assignable, which holds in one direction only: which of `{\"Version\":\"1\",\"version\":3}` and `{\"version\":\"1\",\"Version\":3}` keeps a type depends on the spellings")
+	} else {
+		c.ok(construct, fn.Pos(), "no one-directional type relation decides what colliding keys give")
+	}
 }
 
 func runC04IfEOF(c *Ctx) {
@@ -2827,4 +2940,126 @@ func runC20JSONWhole(c *Ctx) {
 	if n == 0 {
 		c.anchorMissing("JSON decoding of the shellcheck output in rule_shellcheck.go")
 	}
+}
+
+// C17.EVERYFILTER — every filter of every event reaches the validator: a loop of the glob rule whose body validates a
+// pattern or reports a pattern error visits every element (no return, break or goto out of it).
+func init() {
+	register(&Rule{ID: "C17.EVERYFILTER", Min: 3, Doc: "loops of the glob rule that validate patterns or report pattern errors have no early exit", Run: runC17EveryFilter})
+}
+
+func runC17EveryFilter(c *Ctx) {
+	p := c.P
+	info := p.info()
+	ruleT := p.Named("RuleGlob")
+	vr, vp := p.Func("ValidateRefGlob"), p.Func("ValidatePathGlob")
+	if ruleT == nil || vr == nil || vp == nil {
+		c.anchorMissing("RuleGlob, ValidateRefGlob, ValidatePathGlob")
+		return
+	}
+	var roots []*ssa.Function
+	for _, fn := range p.Funcs {
+		if recv := fn.Signature.Recv(); recv != nil && fn.Synthetic == "" {
+			t := recv.Type()
+			if pt, ok := t.(*types.Pointer); ok {
+				t = pt.Elem()
+			}
+			if n, ok := t.(*types.Named); ok && n.Obj() == ruleT.Obj() {
+				roots = append(roots, fn)
+			}
+		}
+	}
+	if len(roots) == 0 {
+		c.anchorMissing("methods of RuleGlob")
+		return
+	}
+	scope := p.reachable(roots...)
+	errFns := map[*ssa.Function]bool{}
+	for _, m := range []string{"Error", "Errorf"} {
+		if f := p.Method("RuleBase", m); f != nil {
+			errFns[f] = true
+		}
+	}
+	relevant := map[*ssa.Function]bool{}
+	for fn := range scope {
+		if !inPkg(fn, p.SPkg) {
+			continue
+		}
+		r := p.reachable(fn)
+		if r[vr] || r[vp] {
+			relevant[fn] = true
+		}
+		for e := range errFns {
+			if r[e] {
+				relevant[fn] = true
+			}
+		}
+	}
+	p.FuncDecls(func(_ *ast.File, d *ast.FuncDecl) {
+		fn := p.declFunc(d)
+		if fn == nil || !scope[fn] || fn == vr || fn == vp || errFns[fn] {
+			return
+		}
+		// the validator itself is not the rule: only functions from which the rule's callbacks reach it
+		if r := p.reachable(vr, vp); r[fn] {
+			return
+		}
+		labels := rangeLabels(d.Body)
+		n := 0
+		ast.Inspect(d.Body, func(nd ast.Node) bool {
+			rs, ok := nd.(*ast.RangeStmt)
+			if !ok {
+				return true
+			}
+			does := false
+			ast.Inspect(rs.Body, func(x ast.Node) bool {
+				if call, ok := x.(*ast.CallExpr); ok {
+					if obj := calleeObj(info, call); obj != nil {
+						if g := p.SSA.FuncValue(obj); g != nil && relevant[g] {
+							does = true
+						}
+					}
+				}
+				return !does
+			})
+			if !does {
+				return true
+			}
+			n++
+			construct := fmt.Sprintf("%s|range over %s#%d", FuncName(fn), typeStr(info.TypeOf(rs.X)), n)
+			if exit := loopEarlyExit(p, rs, labels[rs]); exit != "" {
+				c.bad(construct, rs.Pos(), "the loop validates filter patterns or reports their errors but can stop early ("+exit+"): the filters of the remaining elements are never validated")
+			} else {
+				c.ok(construct, rs.Pos(), "every element is visited")
+			}
+			return true
+		})
+	})
+}
+
+// constMapKeys: the constant string keys a package-level map is initialised with.
+func constMapKeys(p *Prog, g *ssa.Global) []string {
+	var out []string
+	init := p.SPkg.Func("init")
+	if init == nil {
+		return nil
+	}
+	eachInstr(init, func(_ *ssa.BasicBlock, _ int, in ssa.Instruction) {
+		st, ok := in.(*ssa.Store)
+		if !ok || st.Addr != g {
+			return
+		}
+		mk, ok := st.Val.(*ssa.MakeMap)
+		if !ok || mk.Referrers() == nil {
+			return
+		}
+		for _, r := range *mk.Referrers() {
+			if mu, ok := r.(*ssa.MapUpdate); ok {
+				if k, ok := constString(mu.Key); ok {
+					out = append(out, k)
+				}
+			}
+		}
+	})
+	return out
 }
